@@ -58,10 +58,38 @@ def _nest(x, n):
     return x
 
 
+class Plain:
+    """an unregistered class with an ordinary __repr__ that embeds the repr of a registered value: the inner
+    value is reached through repr() -> pretty_repr while the outer entry point is still running"""
+
+    def __init__(self, x):
+        self.x = x
+
+    def __repr__(self):
+        return 'Plain(%r)' % (self.x,)
+
+
+class B:
+    """registered, pretty_repr, and so short ('B(1)') that its text is the same under every default configuration
+    of the domain - the repr() in Plain.__repr__ necessarily uses the defaults, not the outer explicit arguments"""
+    __module__ = '__main__'
+
+    def __init__(self, x):
+        self.x = x
+
+    __repr__ = P.pretty_repr
+
+
+@P.register_pretty(B)
+def _pretty_b(value, ctx):
+    return P.pretty_call(ctx, B, value.x)
+
+
 # chosen (by search) so that 60 of the 64 full configurations give pairwise different texts
 VALUE = Box({'top words words words words': [1, 2, 3],
              'm': _nest('deep words words words words words', 7),
-             'a': {'b': {'c': {'d': {'e': {'f': {'g': 1}}}}}}})
+             'a': {'b': {'c': {'d': {'e': {'f': {'g': 1}}}}}},
+             'p': Plain(B(1))})
 
 
 def reference_table():
